@@ -142,12 +142,12 @@ type c05Tree struct {
 	Par  int      // redundant parentheses around the node
 }
 
-var c05IntOps = []string{"+", "-", "*", "/", "%", "&", "|", "^", "<<", ">>"}
+var c05IntOps = []string{"+", "-", "*", "/", "%", "&", "&^", "|", "^", "<<", ">>"}
 var c05CmpOps = []string{"==", "!=", "<", "<=", ">", ">="}
 
 func c05Prec(op string) int {
 	switch op {
-	case "*", "/", "%", "<<", ">>", "&":
+	case "*", "/", "%", "<<", ">>", "&", "&^":
 		return 5
 	case "+", "-", "|", "^":
 		return 4
